@@ -548,6 +548,19 @@ where
         }
     }
 
+    /// The stream bookkeeping of a connected peer: the sequence number of the streams we opened,
+    /// and the ids of the registered streams.
+    pub fn verif_streams(&self, id: ResourceId) -> Option<(u64, Vec<u64>)> {
+        match self.peers.0.get(&id) {
+            Some(Peer::Connected { streams, .. }) => {
+                let mut ids: Vec<u64> = streams.streams.keys().map(|s| u64::from(*s)).collect();
+                ids.sort_unstable();
+                Some((streams.seq, ids))
+            }
+            _ => None,
+        }
+    }
+
     /// Read access to the service.
     pub fn verif_service(&self) -> &Service<D, S, G> {
         &self.service
